@@ -45,6 +45,7 @@ static long long g_guest_seen[4];
 static g_long guest_call_pool(g_ptr cb, g_int code, g_short extra)
 {
   auto f = (g_long(*)(g_int, g_short))SB::current()->rep_to_fn(cb);
+  if (!f) return 0; // the guest was handed a null entry point: nothing runs, which the exactly-once oracle reports
   g_long r = f(code, extra);
   g_guest_seen[0] = (long long)r;
   return r;
@@ -52,6 +53,7 @@ static g_long guest_call_pool(g_ptr cb, g_int code, g_short extra)
 static g_long guest_call_pl(g_ptr cb, g_ptr p, g_long v)
 {
   auto f = (g_long(*)(g_ptr, g_long))SB::current()->rep_to_fn(cb);
+  if (!f) return 0;
   g_long r = f(p, v);
   g_guest_seen[1] = (long long)r;
   return r;
@@ -59,6 +61,7 @@ static g_long guest_call_pl(g_ptr cb, g_ptr p, g_long v)
 static g_ptr guest_call_sp(g_ptr cb, g_ptr p)
 {
   auto f = (g_ptr(*)(g_ptr))SB::current()->rep_to_fn(cb);
+  if (!f) return 0;
   g_ptr r = f(p);
   g_guest_seen[2] = (long long)r;
   return r;
